@@ -376,7 +376,7 @@ def plan(tier, seed, known):
     if tier == "quick":
         n, shards, ms = 1600, 16, 7
     else:
-        n, shards, ms = 60000, 48, 10
+        n, shards, ms = 30000, 48, 10
     specs = [{"range": [s, c], "max_stmts": ms} for s, c in common.split_range(n, shards)]
     if MECH in known:
         specs += [{"range": [10**6 + s, c], "max_stmts": ms, "finding": MECH} for s, c in common.split_range(1600, 8)]
